@@ -99,7 +99,10 @@ P2P_DisconnectAt(s, h, last_frame, now) ==
                                 THEN [s.status[x] EXCEPT !.disc = TRUE] ELSE s.status[x]]
                    IN [s EXCEPT !.status = st,
                                 !.eps[ty.a] = EP_Disconnect(ep, now),
-                                !.disconnect_frame = IF s.sl.cur > last_frame + 1 THEN last_frame + 1 ELSE @]
+                                \* (repaired behaviour) the earliest frame of several disconnects is kept
+                                !.disconnect_frame = IF s.sl.cur > last_frame + 1
+                                                     THEN (IF @ = NullFrame THEN last_frame + 1 ELSE Min2(@, last_frame + 1))
+                                                     ELSE @]
               [] ty.t = "S" -> [s EXCEPT !.eps[ty.a] = EP_Disconnect(s.eps[ty.a], now)]
               [] OTHER -> s
   IN P2P_CheckInitialSync(s1)
